@@ -24,8 +24,9 @@ class BadDistribution(Exception):
 class ScriptedRandom:
     """Implements the RandomState surface Cirq uses (choice / random / randint)."""
 
-    def __init__(self, prefix=(), bulk_rng=None):
+    def __init__(self, prefix=(), bulk_rng=None, default_last=False):
         self.prefix = list(prefix)
+        self.default_last = default_last  # beyond the prefix take the LAST possible outcome (lets loops terminate)
         self.log = []        # (kind, weights tuple | n, decision, nonzero alternatives)
         self.bad = []        # malformed distributions requested
         self.bulk_rng = bulk_rng
@@ -42,7 +43,7 @@ class ScriptedRandom:
             if d >= len(weights):
                 raise BadDistribution("scripted decision %d out of range for %r (non-deterministic replay)" % (d, weights))
         else:
-            d = alts[0]
+            d = alts[-1] if self.default_last else alts[0]
         self.log.append((kind, tuple(float(w) for w in weights), d, alts))
         return d
 
@@ -190,6 +191,7 @@ class ExploreResult:
         self.over_budget = False
         self.draws = 0
         self.dead = 0
+        self.cut_mass = 0.0
 
     def distribution(self, key=lambda o: o):
         dist = {}
@@ -202,8 +204,11 @@ class ExploreResult:
         return sum(p for p, _, _ in self.paths)
 
 
-def explore(run, max_paths=4096, min_branch=1e-9):
-    """run(rng) -> hashable outcome.  Enumerates every decision path of the real code."""
+def explore(run, max_paths=4096, min_branch=1e-9, min_path=0.0, default_last=False):
+    """run(rng) -> hashable outcome.  Enumerates every decision path of the real code.
+
+    min_branch: alternatives of a single draw lighter than this are not forced;
+    min_path: alternatives whose cumulative path probability falls below this are not forced (needed for loops)."""
     res = ExploreResult()
     stack = [[]]
     while stack:
@@ -211,7 +216,7 @@ def explore(run, max_paths=4096, min_branch=1e-9):
             res.over_budget = True
             break
         prefix = stack.pop()
-        rng = ScriptedRandom(prefix)
+        rng = ScriptedRandom(prefix, default_last=default_last)
         try:
             outcome = run(rng)
         except UnscriptedDraw:
@@ -231,7 +236,20 @@ def explore(run, max_paths=4096, min_branch=1e-9):
         first = len(prefix)
         if prefix and len(rng.log) >= len(prefix) and rng.log[len(prefix) - 1][0] == "random":
             first = len(prefix) - 1  # a uniform draw reveals its alternatives one at a time
+        cum = 1.0
+        cums = []
+        for e in rng.log:
+            cums.append(cum)
+            if e[0] == "bulk":
+                continue
+            if e[0] == "random":
+                cum *= e[1][e[2]] if e[2] is not None else max(0.0, 1.0 - sum(e[1]))
+            else:
+                cum *= e[1][e[2]]
         for i in range(first, len(rng.log)):
             for j in rng.siblings(i, min_branch):
+                if min_path and rng.log[i][0] != "random" and cums[i] * rng.log[i][1][j] < min_path:
+                    res.cut_mass += cums[i] * rng.log[i][1][j]
+                    continue
                 stack.append(decs[:i] + [j])
     return res
